@@ -53,6 +53,13 @@ func (c *Collection) SetWithMeta(_ context.Context, key string, oldCas CAS, newC
 
 // writeWithMeta writes a document which will be stored with a cas value of newCas.  It still performs the standard CAS check for optimistic concurrency using oldCas, when specified.
 func (c *Collection) writeWithMeta(key string, body []byte, xattrs []byte, oldCas CAS, newCas CAS, exp uint32, isJSON, isDeletion bool) error {
+	if len(xattrs) > 0 {
+		// an xattr object without members means "no xattrs", which is stored as NULL like on every other write path
+		var members map[string]json.RawMessage
+		if json.Unmarshal(xattrs, &members) == nil && len(members) == 0 {
+			xattrs = nil
+		}
+	}
 	var e *event
 	err := c.withFeedOrder(func() error {
 		return c.bucket.inTransaction(func(txn *sql.Tx) error {
